@@ -3,7 +3,7 @@
 
 For each: scratch copy of /repo -> demo passes on the clean copy -> patch applies -> the repository's own tests still
 pass -> demo fails -> run the registered quick (or thorough) checks of the property against the patched copy.
-Scratch copies live under /tmp/vf-seeded and are removed immediately.
+Scratch copies live under /tmp/vf-seeded-<pid> and are removed immediately.
 
 usage: tools/seeded.py [names...] [--tier quick] [--checks C01,C05] [--jobs 4] [--update-meta]
 """
@@ -17,7 +17,7 @@ import sys
 
 HERE = os.path.dirname(os.path.dirname(os.path.abspath(__file__)))
 REPO = "/repo"
-SCRATCH = "/tmp/vf-seeded"
+SCRATCH = f"/tmp/vf-seeded-{os.getpid()}"      # per process: several evaluations may run at once
 DESELECT = ["msmart/tests/test_cloud.py::TestNetHomePlusCloud::test_get_token", "msmart/tests/test_cloud.py::TestNetHomePlusCloud::test_get_token_exception",
             "msmart/tests/test_cloud.py::TestNetHomePlusCloud::test_login", "msmart/tests/test_cloud.py::TestNetHomePlusCloud::test_login_exception",
             "msmart/tests/test_cloud.py::TestSmartHomeCloud::test_login", "msmart/tests/test_cloud.py::TestSmartHomeCloud::test_login_exception"]
@@ -77,6 +77,7 @@ def main():
     ap.add_argument("--seed", type=int, default=0)
     ap.add_argument("--shards", type=int, default=4)
     ap.add_argument("--update-meta", action="store_true")
+    ap.add_argument("--matrix", default=None, help="write {seed: {check: detected}} to this JSON file")
     args = ap.parse_args()
     names = args.names or sorted(os.listdir(os.path.join(HERE, "seeded")))
     names = [n for n in names if os.path.isdir(os.path.join(HERE, "seeded", n))]
@@ -91,8 +92,12 @@ def main():
         if skipped:
             print("skipping obsolete entries:", ", ".join(skipped))
     os.makedirs(SCRATCH, exist_ok=True)
+    matrix = {}
     with cf.ThreadPoolExecutor(args.jobs) as ex:
         for r in ex.map(lambda n: evaluate(n, args), names):
+            matrix[r["name"]] = {c: ("detected" if v["rc"] == 1 else "error" if v["rc"] == 2 else "quiet") for c, v in r.get("checks", {}).items()}
+            if args.matrix:
+                json.dump(matrix, open(args.matrix, "w"), indent=0, sort_keys=True)
             ok = r.get("demo_clean") == 0 and r.get("patch") == 0 and r.get("tests") == 0 and r.get("demo_patched", 0) != 0
             chk = " ".join(f"{c}:{'DETECTED' if v['rc'] == 1 else ('ERROR' if v['rc'] == 2 else 'missed')}" for c, v in r.get("checks", {}).items())
             print(f"{r['name']:10s} confirmed={'yes' if ok else 'NO'} (demo clean rc={r.get('demo_clean')}, patch rc={r.get('patch')}, tests rc={r.get('tests')} [{r.get('tests_line', '')}], demo patched rc={r.get('demo_patched')})  {chk}")
